@@ -489,8 +489,38 @@ fn main() {
                         emit_call(&mut out, case, "new", &[op], &a, fl | 0x2000, u64::MAX, Some(("same_val_as_prev", json!(true))));
                     }
                 }
+                "fast" => {
+                    // C05: small-integer-biased argument lists for the operators that have fast paths
+                    for case in 0..n {
+                        let op = *r.pick(&[16u8, 17, 18, 21, 11]);
+                        let arity = match op {
+                            21 => 2,
+                            11 => *r.pick(&[2usize, 2, 2, 1, 3]),
+                            _ => r.below(7) as usize,
+                        };
+                        let mut t = atom_json(&[]);
+                        for i in 0..arity {
+                            let it = match r.below(9) {
+                                0 => atom_json(&[0x7f, 0xff, 0xff, 0xff, 0xff, 0xff, 0xff, 0xff]),
+                                1 => atom_json(&[0x00, 0xff, 0xff, 0xff, 0xff, 0xff, 0xff, 0xff, 0xff]),
+                                2 => atom_json(&[0x03, 0xff, 0xff, 0xff]),
+                                3 => atom_json(&[0x04, 0x00, 0x00, 0x00]),
+                                4 => atom_json(&[0x00, 0x01]),
+                                5 => small_int(-(r.below(300) as i64)),
+                                _ => {
+                                    let top = if r.chance(1, 2) { 45 } else { 0x400_0000 };
+                                    small_int(r.below(top) as i64)
+                                }
+                            };
+                            let it = if op == 11 && i == arity - 1 - (arity > 1) as usize && r.chance(3, 4) { atom_json(&[1]) } else { it };
+                            t = json!({"f": it, "r": t});
+                        }
+                        let fl = rand_flags(&mut r) & (0x2000 | 0x0040 | ENABLE_ALL);
+                        budget_variants(&mut out, &mut r, case, &[op], &t, fl);
+                    }
+                }
                 "unknown" => {
-                    let lens = [0usize, 1, 2, 255, 256, 65535, 741456, 1 << 20];
+                    let lens =[0usize, 1, 2, 255, 256, 65535, 741456, 1 << 20];
                     for case in 0..n {
                         let opb = rand_unknown_op(&mut r);
                         let arity = r.below(4) as usize;
